@@ -9,17 +9,28 @@ use crate::props::speed_profile::{posted, SpeedCase};
 use crate::props::train_run::*;
 
 pub fn gen_slts_case(g: &mut Gen, _tier: Tier, allow_dummy: bool) -> TrainCase {
-    let train = gen_train(
-        g,
-        &TrainOpts { allow_dummy, max_cars: 100, min_w_per_kg: 0.7, max_w_per_kg: 2.5, ..Default::default() },
-    );
+    // 20 % "steep" cases: grades up to 2.5 % (else 1 %), enough power to climb them, and in
+    // most of them weakly braked cars (net braking ratio down to 0.05, the low end of loaded
+    // freight stock): braking curves over grade breaks, long braking distances
+    let steep = g.bool(0.2);
+    // half of the steep cases run downhill only (every grade mirrored to <= 0), with little
+    // power — hence little dynamic braking — per tonne: the friction brake does the work
+    let descent = steep && g.bool(0.5);
+    let (w_lo, w_hi) = if descent { (0.4, 1.2) } else if steep { (1.6, 3.5) } else { (0.7, 2.5) };
+    let mut train = gen_train(g, &TrainOpts { allow_dummy, max_cars: 100, min_w_per_kg: w_lo, max_w_per_kg: w_hi, ..Default::default() });
+    if steep && g.bool(0.7) {
+        let k = g.grid(0.4, 0.9, 10);
+        for c in train.cars.iter_mut() {
+            c.braking_ratio = Gen::round((c.braking_ratio * k).max(0.05), 3);
+        }
+    }
     let tp = train.params();
     // 30 % simple profiles (at most one restriction per link, no gates): with a monotone
     // limit profile ahead any overspeed is unambiguous (cf. window_class)
     let simple = g.bool(0.3);
     let o = ChainOpts {
         max_links: 4,
-        max_grade: 0.01,
+        max_grade: if steep { 0.025 } else { 0.01 },
         max_len: 8000.0,
         max_restr: if simple { 1 } else { 7 },
         gates: !simple,
@@ -29,7 +40,18 @@ pub fn gen_slts_case(g: &mut Gen, _tier: Tier, allow_dummy: bool) -> TrainCase {
     // first link long enough for the backward braking curve (10 % short ones exercise the
     // descriptive-error path)
     let first_min = if g.bool(0.1) { 0.0 } else { g.grid(4000.0, 9000.0, 10) + tp.length };
-    let links = gen_links_for(g, &tp, &o, tp.length + 1500.0, first_min);
+    let mut links = gen_links_for(g, &tp, &o, tp.length + 1500.0, first_min);
+    if descent {
+        let mut e = links[0].elevs[0].1;
+        for l in links.iter_mut() {
+            let old: Vec<f64> = l.elevs.iter().map(|p| p.1).collect();
+            l.elevs[0].1 = e;
+            for i in 1..old.len() {
+                e = Gen::round(e - (old[i] - old[i - 1]).abs(), 3);
+                l.elevs[i].1 = e;
+            }
+        }
+    }
     let mode = if g.bool(0.6) { 1 } else { 2 };
     TrainCase { links, train, mode, trace: vec![], save_interval: Some(1), simulation_days: None, init_speed_zero: false }
 }
@@ -152,6 +174,11 @@ pub fn check_c03_run_opts(case: &TrainCase, run: &TrainRun, cx: &mut Ctx, timed:
         let excess = if p.msg.contains("Speed limit violated") && nums.len() >= 2 { nums[0] - nums[nums.len() - 2].min(nums[1]) } else { f64::INFINITY };
         let excess = if p.msg.contains("Speed limit violated") { parse_excess(&p.msg).unwrap_or(excess) } else { f64::INFINITY };
         let wc = st.last().map(|s| speed_class(&sc, &b, s.offset.value, excess)).unwrap_or("");
+        // how long had the train been at (nearly) full friction braking when it unwound?
+        let full = run.fric_force.iter().rev().take_while(|f| **f >= 0.9 * run.fric_force_max && run.fric_force_max > 0.0).count();
+        if p.msg.contains("Speed limit violated") {
+            cx.label(&format!("overspeed_panic{wc}_after_full_brake_steps_{}", match full { 0 => "0", 1 => "1", 2 => "2", 3..=5 => "3-5", 6..=10 => "6-10", _ => "11+" }));
+        }
         cx.fail(
             tag(&format!("panic|{}{wc}", p.class())),
             format!("run unwound: {} at {}:{} after {} saved steps", p.msg, p.file, p.line, st.len()),
@@ -286,6 +313,13 @@ fn check_timed(dc: &crate::props::corridor::DispatchCase, cx: &mut Ctx) {
     };
     let mut any_wait = false;
     for (t, path) in plan.iter().enumerate() {
+        // a plan entry without a finite time is C05's finding (arrival-time-not-finite); fed to
+        // walk_timed_path it makes `while state.time < time_extend` spin for ever, so such
+        // trains are not walked here
+        if path.iter().any(|p| !p.time.value.is_finite()) {
+            cx.label("timed_path_with_non_finite_time_not_walked");
+            continue;
+        }
         let ti = members[t];
         let spec = &dc.trains[ti].train;
         let route: Vec<usize> = path.iter().map(|p| p.link_idx.idx()).collect();
